@@ -316,14 +316,14 @@ pub fn run(ctx: &Ctx, stats: &mut Stats) {
     use proptest::prelude::*;
     let c2 = ctx.clone();
     let counters = std::cell::Cell::new([0u64; 5]);
-    let cfg = GenCfg { max_contig: 1800, max_samples: 3, many_samples_pct: 0, single_file: None, vary_presentation: false };
+    let cfg = GenCfg { max_contig: 1800, max_samples: 3, many_samples_pct: 0, single_file: None, vary_presentation: false, swarm_pct: 0 };
     let n = ctx.tier.pick(16, 160);
     {
         let check = |c: &FaultCase| check_in(&c2, c, &counters);
         run_prop(ctx, stats, "archives", n, gen::collection_strategy(cfg).prop_map(|collection| FaultCase { collection, only: None, exhaustive: false }), &check);
         if ctx.tier == Tier::Thorough {
             // every offset of a few small archives
-            let tiny = GenCfg { max_contig: 1200, max_samples: 2, many_samples_pct: 0, single_file: None, vary_presentation: false };
+            let tiny = GenCfg { max_contig: 1200, max_samples: 2, many_samples_pct: 0, single_file: None, vary_presentation: false, swarm_pct: 0 };
             run_prop(ctx, stats, "all-offsets", 16, gen::collection_strategy(tiny).prop_map(|collection| FaultCase { collection, only: None, exhaustive: true }), &check);
         }
     }
